@@ -386,6 +386,24 @@ func TestC10SyncReplies(t *testing.T) {
 			forged = world.SignReply(forged, w.srvKey)
 			try(forged.Encode(), nil, "migration-forged-by-server-"+sigKind, "gca-signature")
 		}
+		// a complete, genuine-looking reply for ANOTHER device that carries that
+		// device's own migration order (correctly signed by the current GCA, new
+		// servers signed by the new GCA, the whole reply signed by the contacted
+		// server): everything verifies, but it is not for this client
+		{
+			other := keyFor("c10-other-device-with-order")
+			ng := keyFor("c10-other-new-gca")
+			foreign := ref.SyncReply{DeviceKey: other.Pub, Offset: snap.Offset, NewGCA: ng.Pub, NewShortID: drawU32(t, "foreignID")}
+			for i, n := 0, rapid.IntRange(0, 2).Draw(t, "foreignServers"); i < n; i++ {
+				e := ref.AuthServer{PublicKey: keyFor(fmt.Sprintf("c10-foreign-srv-%d", i)).Pub, Location: "127.0.0.1", HttpPort: 1, TcpPort: 1, UdpPort: 9}
+				e.Sig = ref.Sign(ng, e.SigningBytes())
+				foreign.Servers = append(foreign.Servers, e)
+			}
+			m := ref.Migration{Equipment: other.Pub, NewGCA: ng.Pub, NewShortID: foreign.NewShortID, NewServers: foreign.Servers}
+			foreign.GCASig = ref.Sign(s.gca, m.SigningBytes())
+			foreign = world.SignReply(foreign, w.srvKey)
+			try(foreign.Encode(), nil, "migration-reply-for-other-device", "device-key")
+		}
 		// ---- a full sync round against a rejected reply changes nothing ----
 		beforeFiles := cw.clientFiles()
 		before := c.VerifState()
